@@ -13,7 +13,6 @@ package c01
 
 import (
 	"fmt"
-	"os"
 	"path/filepath"
 	"sort"
 
@@ -214,9 +213,23 @@ func Generate(seed uint64, n int, tier, corpusDir string, shard int, out *kit.Ou
 		s    slot
 		kind int
 	}
+	// can the slot's write be issued when this is the only fault (no recovery unless a restart precedes)?
+	reachable := func(tl int, base []stepSpec, s slot) bool {
+		own := 1
+		if s.target == tRecords && tl == 0 {
+			own = len(base[s.cmd].Ops)
+		}
+		if s.cmd > 0 && base[s.cmd-1].Kind != "cmd" && s.cmd > 1 {
+			own++ // re-apply of the last event by the new processor
+		}
+		return s.k <= own
+	}
 	singles := func(tl int, base []stepSpec, only int) error {
 		for _, s := range slotsOf(base) {
 			if only >= 0 && s.cmd != only {
+				continue
+			}
+			if tier != "thorough" && !reachable(tl, base, s) {
 				continue
 			}
 			for kind := 0; kind < 3; kind++ {
@@ -302,6 +315,5 @@ random:
 			return err
 		}
 	}
-	_ = os.Stderr
 	return nil
 }
